@@ -1,4 +1,4 @@
-#[::entrait::entrait(pub(crate) T)]
+#[::entrait::entrait(pub(in crate::cases) T)]
 pub mod m {
     fn f1<D>(d: &D) -> u32 { 1 }
     pub extern fn f2<D>(d: &D) -> u32 { 2 }
